@@ -459,7 +459,7 @@ def judge(sr, drv, inp, res):
         elif not r["ok"]:
             bad = sorted(d for d in diffs if not (d[1] in DOCUMENTED or d[2] in ("library-order", "definition-order") or
                                                   (d[0] == "netlist" and d[1] == ".NAME" and s0["name"] is None)))
-            sr.spec_failure("edif.compose.changes_netlist." + ("+".join("%s.%s.%s" % d for d in bad[:3]) or "other"), brief,
+            sr.spec_failure("edif.compose.changes_netlist." + ("%s.%s.%s" % bad[0] if bad else "other"), brief,
                             "Spec DocEq(after, before) is false; first difference %s" % snap_diff(s0, s1))
         for d in diffs:
             sr.dist("edif.effect.%s.%s" % (d[1] or d[0], d[2]))
@@ -469,7 +469,7 @@ def judge(sr, drv, inp, res):
             if fmt == "eblif" and kinds and all(d == ("inst", "EBLIF.type", "added") for d in kinds):
                 sig = SIG_EBLIF_TYPE
             else:
-                sig = "%s.compose.changes_netlist.%s" % (fmt, "+".join("%s.%s.%s" % d for d in kinds[:3]) or "other")
+                sig = "%s.compose.changes_netlist.%s" % (fmt, ("%s.%s.%s" % kinds[0] if kinds else "other"))
             sr.spec_failure(sig, brief, "netlist differs after compose: %s" % snap_diff(s0, s1))
             if sig == SIG_EBLIF_TYPE:
                 sr.corr_mismatch("composePure: netlist after = netlist before", brief, "EBLIF.type added", "unchanged", signature=sig)
